@@ -32,7 +32,7 @@ CHECKS = {
         "runtime contracts (postconditions vs dense Kronecker product) on the four rotation functions, incl. calls made by the library itself; dictionary eigen-equation and physical-state monitors",
         "Record-and-check postconditions sit on rotate_psi / rotate_rho / rotate_psi_inner_prod / rotate_rho_probs of the "
         "imported module and compare every call (model path, explicit psi=/rho= path, include_extras, unitaries=) with "
-        "numpy kron; the workload enumerates all 3^n strings for n<=4, samples n=5..7, adds Haar-random user unitaries, "
+        "numpy kron; the workload enumerates all 3^n strings for n<=4, samples n=5..12, adds Haar-random and structured user unitaries (given as tensors / arrays / lists), "
         "Hermitian PSD/indefinite/real-symmetric rho, and a library-driven stage (gradient, KL, NLL). Exhaustive over the "
         "strings for n<=4, sampling elsewhere; not a proof.",
         "Trusted: numpy kron/matmul complex128. Non-Hermitian explicit rho is outside the verdict-bearing class.",
@@ -41,10 +41,10 @@ CHECKS = {
     "C15": (
         "icontract postconditions (recording) on every public function of utils/cplx.py vs numpy complex128, synthetic generator + library-driven scenarios; error-path monitors",
         "Every public cplx function carries an icontract.ensure postcondition comparing its result with numpy complex128 on "
-        "the decoded operands (tolerance 50 eps sum|terms|, dtype-aware); evaluated on shapes x value classes "
-        "(zero, +-1, tiny, huge, real, imaginary, mixed scale, float32 cplx.I) and on the shapes the library produces in "
+        "the decoded operands (tolerance 50 eps sum|terms| per real / imaginary component, dtype-aware); evaluated on shapes x value classes "
+        "(zero, +-1, tiny, huge, real, imaginary, mixed and split scale, float32 cplx.I), contiguous and strided operands and on the shapes the library produces in "
         "rotations, gradients, observables and a short fit; unsupported shapes / aliasing out= must raise.",
-        "Trusted: numpy complex arithmetic as the definition. Overlapping-view out= buffers are not demanded to be rejected.",
+        "Trusted: numpy complex arithmetic as the definition. out= buffers overlapping an operand (views, partial, gapped) must be refused or give the right product (F12); disjoint buffers of one allocation may be used.",
         "DESIGN.md 3 C15",
     ),
     "C03": (
